@@ -143,6 +143,7 @@ type loopInfo struct {
 	head    *state
 	entry   *state
 	outer   *LoopSpec // clauses supplied by the verification unit this function is inlined into
+	siteArgs   map[string]bool
 	siteWrites map[string]bool // site-specific keys stored to directly inside the loop
 	closures bool // the loop creates, defers or calls closures / inlined code
 }
@@ -522,7 +523,7 @@ func (e *Engine) genFunction(fn *ssa.Function) (fc *fnCtx, err error) {
 		// returns inside a switch arm are named after the arm (stable and telling: walk#post:out@case:*parse.SetNode)
 		where := ""
 		if cs := fr.anchorText(rr.instr.Pos(), "case"); cs != "" {
-			where = "@case:" + cs
+			where = "@case:" + strings.Join(strings.Fields(cs), "")
 		}
 		for i, en := range fc.c.Ensures {
 			label := en.Label
@@ -821,7 +822,37 @@ func (fr *frame) prepare() {
 					}
 					if g := v.Call.StaticCallee(); g != nil && fr.fc.e.isRepoFn(g) {
 						if ct := fr.fc.e.contracts.Funcs[fr.fc.e.keyOf(g)]; (ct != nil && ct.Inline) || fr.fc.c.Inlines[fr.fc.e.keyOf(g)] {
-							li.closures = true // inlined code may store to cells of enclosing frames
+							// expanded code may store to a cell of this frame only through an address it is handed
+							if g.Parent() != nil || len(g.FreeVars) > 0 {
+								li.closures = true
+							}
+							for _, a := range v.Call.Args {
+								if _, isPtr := a.Type().Underlying().(*types.Pointer); !isPtr {
+									continue
+								}
+								base := a
+								for {
+									if fa, ok := base.(*ssa.FieldAddr); ok {
+										base = fa.X
+										continue
+									}
+									break
+								}
+								if site := fr.siteOf(base); site != "" {
+									if li.siteArgs == nil {
+										li.siteArgs = map[string]bool{}
+									}
+									li.siteArgs[site] = true
+								} else if _, isAlloc := base.(*ssa.Alloc); !isAlloc {
+									if _, isParam := base.(*ssa.Parameter); !isParam {
+										if _, isCall := base.(*ssa.Call); !isCall {
+											if _, isLoad := base.(*ssa.UnOp); !isLoad {
+												li.closures = true // a pointer of unknown origin
+											}
+										}
+									}
+								}
+							}
 						}
 					}
 				}
@@ -1180,9 +1211,50 @@ func (fr *frame) namedAt(b *ssa.BasicBlock, strict bool) map[string]ssa.Value {
 		}
 		if len(ok) == 1 && (len(vs) == 1 || isInstrValue(ok[0])) {
 			out[n] = ok[0]
+		} else if len(ok) > 1 {
+			// shadowing: several definitions dominate this point; the innermost (latest) one is in scope
+			var best ssa.Value
+			for _, v := range ok {
+				vi, isI := v.(ssa.Instruction)
+				if !isI {
+					best = nil
+					break
+				}
+				if best == nil {
+					best = v
+					continue
+				}
+				bi := best.(ssa.Instruction)
+				switch {
+				case bi.Block() == vi.Block():
+					if instrIndex(vi) > instrIndex(bi) {
+						best = v
+					}
+				case bi.Block().Dominates(vi.Block()):
+					best = v
+				case vi.Block().Dominates(bi.Block()):
+				default:
+					best = nil
+				}
+				if best == nil {
+					break
+				}
+			}
+			if best != nil {
+				out[n] = best
+			}
 		}
 	}
 	return out
+}
+
+func instrIndex(in ssa.Instruction) int {
+	for i, x := range in.Block().Instrs {
+		if x == in {
+			return i
+		}
+	}
+	return -1
 }
 
 func isInstrValue(v ssa.Value) bool {
@@ -1278,12 +1350,46 @@ func (fr *frame) enterLoop(h *ssa.BasicBlock, li *loopInfo, cur *state) {
 		if i := strings.Index(k, "@"); i >= 0 && (li.writes[k[:i]] || li.writes[k[:i]+"#FRESH"] || li.writes[k[:i]+"#P0"] || li.writes[k[:i]+"#P1"]) {
 			// callees cannot reach cells of non-escaping locals (they have site-specific keys); such a key
 			// changes in the loop only through a direct store, or through closure / inlined code
-			if li.siteWrites[k] || li.closures || !fr.top {
+			if li.siteWrites[k] || li.closures || li.siteArgs[k[i:]] || !fr.top {
 				ks = append(ks, k)
 			}
 		}
 	}
 	{
+		// keys written in the loop only at objects the loop itself allocates (#FRESH effects): havocked, but every
+		// object that existed when the loop was entered keeps its value
+		plainW := map[string]bool{}
+		for _, k := range ks {
+			if !strings.Contains(k, "#") {
+				plainW[k] = true
+			}
+		}
+		var ks2, freshOnly []string
+		for _, k := range ks {
+			if strings.HasSuffix(k, "#FRESHBASE") {
+				b := stripBase(k)
+				only := !plainW[b]
+				for _, k2 := range ks {
+					if k2 != k && stripBase(k2) == b && !strings.HasSuffix(k2, "#FRESH") {
+						only = false
+					}
+				}
+				if only && strings.HasPrefix(b, "F|") {
+					freshOnly = append(freshOnly, b)
+					continue
+				}
+			}
+			ks2 = append(ks2, k)
+		}
+		ks = ks2
+		sort.Strings(freshOnly)
+		for _, b := range freshOnly {
+			oldH := fc.hget(cur, b)
+			fc.havoc(cur, b)
+			nw := cur.heap[b]
+			r := sc.fresh("r")
+			sc.assume(fmt.Sprintf("(forall ((%s Int)) (! (=> (< %s %s) (= (select %s %s) (select %s %s))) :pattern ((select %s %s))))", r, r, cur.alloc, nw, r, oldH, r, nw, r))
+		}
 		whole, pts := resolveBased(ks, func(j int) string {
 			if j < len(fr.fn.Params) {
 				if t, ok := fr.regs[fr.fn.Params[j]]; ok {
